@@ -73,6 +73,9 @@ def main(argv=None):
         return 3
 
 
+TIE_POLICY_PROPS = {"C09"}
+
+
 def run_check(prop, P, args):
     t0 = time.time()
     tier = args.tier if args.tier in ("quick", "thorough") else "quick"
@@ -256,6 +259,11 @@ def run_check(prop, P, args):
             def regressed(o):
                 if o.get("item_kind") == "lemma" or o.get("anchor_drift"):
                     return False        # (anchor drift: ghost updates were lost with a rewritten statement - no verdict)
+                clause = o["name"].split("/")[-1].split("#")[0].split("[")[0]
+                if clause.startswith(("tie_", "snap_tie_")) and prop not in TIE_POLICY_PROPS:
+                    # a clause that pins down HOW ties are broken (needed for "the answer is a function of the sample",
+                    # C09); properties that allow any tie-breaking get no verdict from it: the run-time channel decides
+                    return False
                 if o.get("kind") in INTERNAL and o.get("item_kind") not in ("axioms", "metric"):
                     return False        # (the `lemma` obligations of metric items are statements about the code's formula)
                 if o["hash_changed"]:
